@@ -232,20 +232,33 @@ def cmd_check(pid, tier, n_override=None, nproc=None, budget_s=None):
     # 4. minimise + classify violations
     viol = [(r["i"], c) for r in ok for c in r["clauses"]]
     n_violating_cases = len({i for i, _ in viol})
-    minis = pool.run_pool(viol, _mk_minimise(pid, seed, tier), _init_worker, nproc=nproc, timeout_s=900) if viol else []
     new_violations = {}
-    for (i, clause), m in zip(viol, minis):
-        if m is None or "_harness" in (m or {}):
-            harness_errors.append("minimise %d %s: %s" % (i, clause, m))
-            continue
-        if not m["reproduced"]:
-            harness_errors.append("case %d clause %s did not reproduce in a second run" % (i, clause))
-            continue
-        f = match_finding(findings, pid, clause, m["features"])
-        if f is not None:
-            known_seen[f["id"]] = known_seen.get(f["id"], 0) + 1
-        else:
-            new_violations.setdefault((clause, m["exact"]), (i, m))
+    not_minimised = 0
+    batch = max(8, (nproc or os.cpu_count() or 8))
+    pos = 0
+    MAX_NEW = int(os.environ.get("SIMJS_MAX_NEW", "10"))
+    while pos < len(viol):
+        if len(new_violations) >= MAX_NEW:
+            # the check already fails; the remaining violating runs are counted, not minimised
+            not_minimised = len(viol) - pos
+            break
+        chunk = viol[pos:pos + batch]
+        pos += len(chunk)
+        minis = pool.run_pool(chunk, _mk_minimise(pid, seed, tier), _init_worker, nproc=nproc, timeout_s=900)
+        for (i, clause), m in zip(chunk, minis):
+            if m is None or "_harness" in (m or {}):
+                harness_errors.append("minimise %d %s: %s" % (i, clause, m))
+                continue
+            if not m["reproduced"]:
+                harness_errors.append("case %d clause %s did not reproduce in a second run" % (i, clause))
+                continue
+            f = match_finding(findings, pid, clause, m["features"])
+            if f is not None:
+                known_seen[f["id"]] = known_seen.get(f["id"], 0) + 1
+            else:
+                new_violations.setdefault((clause, m["exact"]), (i, m))
+    if not_minimised:
+        print("note: %d further violating (run, clause) pairs were not minimised (the check already fails)" % not_minimised)
     for (clause, exact), (i, m) in sorted(new_violations.items()):
         path = write_replay(pid, m, seed)
         print("VIOLATION property=%s replay=%s" % (pid, path))
